@@ -1,4 +1,5 @@
 import DarkluaModel.Shared.VisitorSound.HeapV.VSteps
+import DarkluaModel.Shared.VisitorSound.HeapV.VOracle
 import DarkluaModel.Shared.VisitorSoundHeap
 /-!
 # Stage 4: lifting for rules that change the allocation pattern of TABLES and CLOSURES too
@@ -15,7 +16,8 @@ declarations whose initialisers only allocate (`AllocPureEs`: `local t = {}`, `l
 
 * `HooksV P` — each hook rewrites a node by a chain of `VR` links (`Chain VkE` …).
 * `Visitor.visit_v` / `runDefault_v` / `runScoped_v` — then the visited program has the same observable
-  outcome, for EVERY program and every flat oracle.
+  outcome, for EVERY program and every flat oracle (`HeapV/VOracle.lean`: what flat means, why it is needed,
+  `driverOracle_flat`; `…_driver` variants below have no hypothesis).
 * `Sem.HeapV.renumbering_invariance` (`Heap/General.lean`) — the semantics is invariant under renumbering.
 * **Frontiers and pins** (`Inj.cL … fR`, `Inj.pinF`): an extension of the injections only adds pairs at or
   beyond the frontier (`Inj.le.fresh…`, `protectedFL` …), and a closure the LEFT allocates early can be pinned
@@ -120,6 +122,20 @@ theorem Visitor.runScoped_v (H : HooksV P) (b : Block) (s : σ) {N : NumOps} (ρ
     (n : Nat) (externs : List String) :
     runProgram ρ n externs (Visitor.runScoped P b s).1 = runProgram ρ n externs b :=
   Visitor.visit_v H true _ true b s ρ hρ n externs
+
+/-! ### at the oracle of the harness (`Shared.driverOracle`) no hypothesis is left (`driverOracle_flat`) -/
+
+theorem Sem.HeapV.chain_runProgram_driver {b b' : Block} (h : Chain VkB b b') (n : Nat) (externs : List String) :
+    runProgram Shared.driverOracle n externs b' = runProgram Shared.driverOracle n externs b :=
+  chain_runProgram h _ driverOracle_flat n externs
+
+theorem Visitor.runDefault_v_driver (H : HooksV P) (b : Block) (s : σ) (n : Nat) (externs : List String) :
+    runProgram Shared.driverOracle n externs (Visitor.runDefault P b s).1 = runProgram Shared.driverOracle n externs b :=
+  Visitor.runDefault_v H b s _ driverOracle_flat n externs
+
+theorem Visitor.runScoped_v_driver (H : HooksV P) (b : Block) (s : σ) (n : Nat) (externs : List String) :
+    runProgram Shared.driverOracle n externs (Visitor.runScoped P b s).1 = runProgram Shared.driverOracle n externs b :=
+  Visitor.runScoped_v H b s _ driverOracle_flat n externs
 
 /-! ### exact hooks are stage-4 hooks when they introduce no identifier references -/
 
